@@ -355,4 +355,103 @@ theorem widthOK256 : WidthOK 256 := by
     have : (10 : Int) ^ 76 < 2 ^ (256 - 1) := by decide
     omega
 
+
+/-! ### integer text -/
+
+/-- the digit fold of `atoiLoop` -/
+def accDigits (neg : Bool) (lo hi : Int) (acc : Option Int) (l : List Char) : Option Int :=
+  l.foldl (fun acc c => acc.bind (fun a =>
+    let v := if neg then a * 10 - digitVal c else a * 10 + digitVal c
+    if lo ≤ v ∧ v ≤ hi then some v else none)) acc
+
+theorem atoiLoop_digits (neg : Bool) (lo hi : Int) (l : List Char) (hl : ∀ c ∈ l, c.isDigit = true)
+    (acc : Option Int) (k : Nat) :
+    atoiLoop neg lo hi l acc k = (accDigits neg lo hi acc l, k + l.length) := by
+  induction l generalizing acc k with
+  | nil => simp [atoiLoop, accDigits]
+  | cons c cs ih =>
+    have hc : isDigit c = true := hl c (by simp)
+    simp only [atoiLoop, hc, if_true]
+    rw [ih (fun c' h => hl c' (by simp [h]))]
+    simp [accDigits, Nat.add_assoc, Nat.add_comm 1]
+
+theorem digitVal_digitChar (n : Nat) (h : n < 10) : digitVal (Nat.digitChar n) = n := by
+  have : ∀ n, n < 10 → digitVal (Nat.digitChar n) = n := by decide
+  exact this n h
+
+theorem accDigits_pos (lo hi : Int) (hlo : lo ≤ 0) (n : Nat) (hn : (n : Int) ≤ hi) :
+    accDigits false lo hi (some 0) (Nat.toDigits 10 n) = some (n : Int) := by
+  induction n using Nat.strongRecOn with
+  | _ n ih =>
+    by_cases h : n < 10
+    · rw [Nat.toDigits_of_lt_base h]
+      simp [accDigits, digitVal_digitChar n h]; omega
+    · rw [Nat.toDigits_of_base_le (by decide) (by omega)]
+      unfold accDigits
+      rw [List.foldl_append]
+      have := ih (n / 10) (by omega) (by omega)
+      unfold accDigits at this
+      rw [this]
+      simp [digitVal_digitChar (n % 10) (by omega)]; omega
+
+theorem accDigits_neg (lo hi : Int) (hhi : 0 ≤ hi) (n : Nat) (hn : lo ≤ -(n : Int)) :
+    accDigits true lo hi (some 0) (Nat.toDigits 10 n) = some (-(n : Int)) := by
+  induction n using Nat.strongRecOn with
+  | _ n ih =>
+    by_cases h : n < 10
+    · rw [Nat.toDigits_of_lt_base h]
+      simp [accDigits, digitVal_digitChar n h]; omega
+    · rw [Nat.toDigits_of_base_le (by decide) (by omega)]
+      unfold accDigits
+      rw [List.foldl_append]
+      have := ih (n / 10) (by omega) (by omega)
+      unfold accDigits at this
+      rw [this]
+      simp [digitVal_digitChar (n % 10) (by omega)]; omega
+
+theorem getLast_toDigits_isDigit (n : Nat) : ∃ c, (Nat.toDigits 10 n).getLast? = some c ∧ c.isDigit = true := by
+  have hne : Nat.toDigits 10 n ≠ [] := Nat.toDigits_ne_nil
+  refine ⟨(Nat.toDigits 10 n).getLast hne, List.getLast?_eq_some_getLast hne, ?_⟩
+  exact Nat.isDigit_of_mem_toDigits (by decide) (by decide) (List.getLast_mem hne)
+
+theorem parseInt_formatInt (lo hi x : Int) (hlo : lo ≤ 0) (hhi : 0 ≤ hi) (hx : lo ≤ x ∧ x ≤ hi) :
+    parseInt lo hi (formatInt x) = some x := by
+  have hdig : ∀ n, ∀ c ∈ Nat.toDigits 10 n, c.isDigit = true :=
+    fun n c hc => Nat.isDigit_of_mem_toDigits (by decide) (by decide) hc
+  obtain ⟨cl, hcl, hcd⟩ := getLast_toDigits_isDigit x.natAbs
+  have hne : Nat.toDigits 10 x.natAbs ≠ [] := Nat.toDigits_ne_nil
+  by_cases hneg : x < 0
+  · have hfmt : formatInt x = '-' :: Nat.toDigits 10 x.natAbs := by simp [formatInt, hneg]
+    have hlast : (formatInt x).getLast? = some cl := by
+      rw [hfmt, List.getLast?_cons_of_ne_nil hne]; exact hcl
+    have hacc := accDigits_neg lo hi hhi x.natAbs (by omega)
+    have hval : -(x.natAbs : Int) = x := by omega
+    unfold parseInt
+    simp only [hlast, isDigit, hcd, if_true, not_true, if_false]
+    rw [hfmt]
+    simp only [atoiSigned, atoiLoop_digits true lo hi _ (hdig _), hacc, hval, List.length_cons]
+    simp [Nat.add_comm]
+  · have hfmt : formatInt x = Nat.toDigits 10 x.natAbs := by simp [formatInt, hneg]
+    have hlast : (formatInt x).getLast? = some cl := by rw [hfmt]; exact hcl
+    have hacc := accDigits_pos lo hi hlo x.natAbs (by omega)
+    have hval : (x.natAbs : Int) = x := by omega
+    obtain ⟨c, t, hct⟩ : ∃ c t, Nat.toDigits 10 x.natAbs = c :: t := by
+      cases h : Nat.toDigits 10 x.natAbs with
+      | nil => exact absurd h hne
+      | cons c t => exact ⟨c, t, rfl⟩
+    have hc : c.isDigit = true := hdig x.natAbs c (by rw [hct]; simp)
+    have hc1 : c ≠ '-' := by intro h; rw [h] at hc; exact absurd hc (by decide)
+    have hc2 : c ≠ '+' := by intro h; rw [h] at hc; exact absurd hc (by decide)
+    have hsig : atoiSigned lo hi (c :: t) = atoiLoop false lo hi (c :: t) (some 0) 0 := by
+      unfold atoiSigned
+      split
+      · rename_i r h; injection h with h1 _; exact absurd h1 hc1
+      · rename_i r h; injection h with h1 _; exact absurd h1 hc2
+      · rfl
+    unfold parseInt
+    simp only [hlast, isDigit, hcd, if_true, not_true, if_false]
+    rw [hfmt, hct, hsig, ← hct]
+    simp only [atoiLoop_digits false lo hi _ (hdig _), hacc, hval]
+    simp
+
 end ArrowModel.C13
